@@ -196,3 +196,78 @@ theorem buildCore_declared {α : Type} [Arith α] (files : List (UnitsFile α)) 
         exact expandLoop_flags b.si _ _ 0 (by omega) b.core ce h0 hce _ (by rw [hunits]; exact FlagsFrom.refl _)
 
 end Cook.Bld
+
+namespace Cook.Bld
+open Cook
+
+/-- the first units of `units` are the units of `d` (up to the SI records) -/
+def UnitsFrom {α : Type} (d units : List (UnitB α)) : Prop :=
+  ∀ (i : Nat) (x : UnitB α), d[i]? = some x → ∃ y, units[i]? = some y ∧ y.unit = x.unit
+
+theorem expandAt_unitfield {α : Type} [Arith α] (si : SIConf) (n0 i : Nat) (c c' : Core α) (hs : ExpState n0 i c) (hi : i < n0)
+    (h : expandAt si c i = .ok c') :
+    ∀ (j : Nat) (y : UnitB α), c.units[j]? = some y → ∃ z, c'.units[j]? = some z ∧ z.unit = y.unit := by
+  obtain ⟨u, hu, hcase⟩ := expandAt_shape si n0 i c c' hs hi h
+  rcases hcase with ⟨_, rfl⟩ | ⟨_, pfx, sym, m, _, _, hunits, _, _⟩
+  · exact fun j y hy => ⟨y, hy, rfl⟩
+  · intro j y hy
+    rw [hunits, getElem?_set']
+    have hj := lt_of_getElem?_some hy
+    by_cases hij : i = j
+    · subst hij; rw [hu] at hy; cases hy
+      refine ⟨{ u with expanded := some m }, ?_, rfl⟩
+      simp
+      exact Nat.lt_of_lt_of_le hj (Nat.le_add_right _ _)
+    · exact ⟨y, by simp [hij, List.getElem?_append_left hj, hy], rfl⟩
+
+theorem expandLoop_unitfield {α : Type} [Arith α] (si : SIConf) (n0 : Nat) (k i : Nat) (hik : i + k = n0) (c c' : Core α)
+    (hs : ExpState n0 i c) (h : expandLoop si (List.range' i k) c = .ok c') (d : List (UnitB α)) (hd : UnitsFrom d c.units) :
+    UnitsFrom d c'.units := by
+  induction k generalizing i c with
+  | zero => simp [expandLoop] at h; subst h; exact hd
+  | succ k ih =>
+    rw [List.range'_succ] at h
+    unfold expandLoop at h
+    have h1 := expandAt_good si n0 i c hs (by omega)
+    split at h
+    · cases h
+    · rename_i c1 hc1; rw [hc1] at h1
+      refine ih (i + 1) (by omega) c1 h1 h ?_
+      intro j x hx
+      obtain ⟨y, hy, e⟩ := hd j x hx
+      obtain ⟨z, hz, e'⟩ := expandAt_unitfield si n0 i c c1 hs (by omega) hc1 j y hy
+      exact ⟨z, hz, e'.trans e⟩
+
+/-- without extend blocks the declared units are, unchanged, the first units of the packaged state -/
+theorem buildCore_declared_exact {α : Type} [Arith α] (files : List (UnitsFile α)) (b : Builder α) (c : Core α)
+    (hne : ∀ f, f ∈ files → f.extend = none) (h : buildCore files = .ok (b, c)) : UnitsFrom (declared files) c.units := by
+  unfold buildCore at h
+  split at h
+  · cases h
+  · rename_i b0 hb0
+    split at h
+    · cases h
+    · rename_i c1 hc1
+      cases h
+      have hbok := (addFiles_good files Builder.empty BOK.empty).of_ok hb0
+      have hunits : b.core.units = declared files := by rw [addFiles_units hb0]; simp [Builder.empty]
+      obtain ⟨hext, _⟩ := addFiles_settings hb0
+      have hext' : b.extend = [] := by
+        rw [hext]; simp only [Builder.empty, List.nil_append, List.filterMap_eq_nil_iff]
+        intro f hf; exact hne f hf
+      unfold finishCore at hc1
+      split at hc1
+      · cases hc1
+      · rename_i ce hce
+        rw [hext'] at hc1
+        simp [applyExtendGroups] at hc1; subst hc1
+        unfold expandAll at hce
+        rw [List.range_eq_range'] at hce
+        have h0 : ExpState b.core.units.length 0 b.core := by
+          refine ⟨hbok.1.1, Nat.le_refl _, ?_, ?_, ?_⟩
+          · intro id u h; omega
+          · intro id u _ _ h; exact hbok.1.2 id u h
+          · intro id u hge h; have := lt_of_getElem?_some h; omega
+        exact expandLoop_unitfield b.si _ _ 0 (by omega) b.core ce h0 hce _ (by rw [hunits]; exact fun i x hx => ⟨x, hx, rfl⟩)
+
+end Cook.Bld
